@@ -49,6 +49,10 @@ def run(run, ix, tier):
     check_finalize(run, ix)
     check_directed_kernels(run, ix)
     check_conversions(run, ix)
+    # C-R10: direction of the x + eps shortcuts of the real kernels
+    from ..perturb import check_perturbations
+    run.rule('C-R10', floor=15, desc='mpf_perturb sites: sign of the neglected term')
+    check_perturbations(run, ix, 'C-R10')
     # C-R9: a packed interval is not used after an unpacked endpoint was recomputed
     from ..stale_pack import check_stale_packs
     run.rule('C-R9', floor=30, desc='packed interval and unpacked endpoints stay in sync')
